@@ -20,8 +20,8 @@ META = {
                  "datatype/op/mode/root), anything outside the table is a violation",
     "level_text": "Every (collective, algorithm) pair listed by `smpirun -help-coll` (186), the four single-implementation "
                   "collectives (gatherv, scatterv, scan, alltoallw) and the sixteen non-blocking collectives are run on "
-                  "communicators of 1..17 ranks under several rank placements: 39 (size, placement) configurations per algorithm "
-                  "in the thorough tier (every size 1..17 with one rank per host; blocks of 2 and 4, cyclic over 2 and 3 hosts, "
+                  "communicators of 1..17 ranks under several rank placements: 42 (size, placement) configurations per algorithm "
+                  "in the thorough tier (every size 1..17 with one rank per host; blocks of 2, 3 and 4, cyclic over 2 and 3 hosts, "
                   "reversed communicator on subsets), 2 of them per algorithm and seed in the quick tier (one power-of-two size, "
                   "one other, sizes <= 8) plus the minimal witness of every listed defect. Inside a run the harness loops over "
                   "roots, counts {0,1,2,np-1,np,np+1, two large non-multiples of np (+5 more in thorough)}, datatypes {int, double, "
@@ -43,10 +43,10 @@ META = {
     "rule": "case = one collective call (collective, mode, root, count pattern, count, datatype, operator, data seed, late rank); "
             "non-trivial = distinct (collective, algorithm, np-class>1, placement-class, count-class other than 0, datatype-class, "
             "mode) whose cases were compared on every rank of a run that reached its end",
-    "assumptions": ["only the listed count/datatype/operator values are driven; the quick tier visits 2 of the 39 (size, placement) "
+    "assumptions": ["only the listed count/datatype/operator values are driven; the quick tier visits 2 of the 42 (size, placement) "
                     "configurations of each algorithm per seed (sizes <= 8) with a stratified sample of 96 calls per collective "
-                    "(thorough: all 39, a stratified sample of 128 calls per collective, 64 for the sizes other than 1,2,3,4,5,7,8,12,16)",
-                    "the simulated platform is one homogeneous cluster; placements: one rank per host, blocks of 2 or 4 ranks per "
+                    "(thorough: all 42, a stratified sample of 128 calls per collective, 64 for the sizes other than 1,2,3,4,5,7,8,12,16)",
+                    "the simulated platform is one homogeneous cluster; placements: one rank per host, blocks of 2, 3 or 4 ranks per "
                     "host, cyclic over 2 or 3 hosts, and a communicator with reversed rank order",
                     "cases in the class of a listed root cause (gen/colls_findings.py) are run apart from the others; of the "
                     "classes that crash only a few representatives are run"],
